@@ -742,6 +742,25 @@ func (e *engineA) memberAction() {
 		return
 	}
 	go e.cl.submitConfig(l, desc, conf)
+	if e.rng.Intn(3) == 0 {
+		// a second request right behind the first (same base configuration):
+		// it meets the leader while the first change is not committed yet
+		conf2 := info.Configs.Latest
+		conf2.Nodes = map[uint64]raft.Node{}
+		for id, n := range info.Configs.Latest.Nodes {
+			conf2.Nodes[id] = n
+		}
+		var ids []uint64
+		for id := range conf2.Nodes {
+			ids = append(ids, id)
+		}
+		sort.Slice(ids, func(i, j int) bool { return ids[i] < ids[j] })
+		id := ids[e.rng.Intn(len(ids))]
+		act := []raft.Action{raft.Demote, raft.Remove, raft.Promote}[e.rng.Intn(3)]
+		if conf2.SetAction(id, act) == nil {
+			go e.cl.submitConfig(l, fmt.Sprintf("back-to-back %v(%d)", act, id), conf2)
+		}
+	}
 }
 
 // newNodeID starts a fresh node with an unused id and returns the id.
